@@ -33,7 +33,8 @@ CONSTANTS
     MaxParams,
     MaxPos,           \* calls: 0..MaxPos positional arguments
     MaxKw,            \* calls: at most MaxKw keyword arguments
-    BugRuntimeIgnoresKwDefaults   \* sensitivity switch: a plausible bug in the runtime route
+    BugRuntimeIgnoresKwDefaults,  \* sensitivity switch: a plausible bug in the runtime route
+    FixedDunder       \* FALSE = current code, TRUE = after /verif/proposed/C13-fix-4.diff (see Annotations.tla)
 
 NoAnn == X("noann", "", << >>)
 AnnExpr(c) ==
@@ -75,6 +76,14 @@ ImplDefDefault(d) ==
       [] d = "..." -> AnyV("unannotated")
       [] OTHER -> KnownV(d)
 
+\* arg_spec.py:456 _make_sig_parameter + the make_everything_pos_only loop of from_signature (:437)
+ImplRtKind(h, i) ==
+    LET p == h.params[i]
+        dunderAtOrAfter == \E j \in i..Len(h.params) :
+                              h.params[j].kind = "POSITIONAL_OR_KEYWORD" /\ IsDunderName(h.params[j].name)
+    IN IF dunderAtOrAfter THEN "POSITIONAL_ONLY" ELSE p.kind
+
+
 ImplDefParam(p) ==
     LET dflt == ImplDefDefault(p.dflt)
         value == IF p.ann # NoAnn
@@ -86,7 +95,10 @@ ImplDefParam(p) ==
 ImplSigDef(h) ==
     LET ret0 == IF h.ret = NoAnn THEN AnyV("unannotated") ELSE ImplAstAnnotation(h.ret, FALSE)   \* name_check_visitor.py:1942
         ret == IF h.isasync THEN ImplCoro(ret0) ELSE ret0                                         \* functions.py:425-432
-    IN SigV([i \in 1..Len(h.params) |-> ImplDefParam(h.params[i])], ret)
+        \* (C13-fix-4) the same positional-only convention in compute_parameters
+        kindOf(i) == IF FixedDunder THEN ImplRtKind(h, i) ELSE h.params[i].kind
+    IN SigV([i \in 1..Len(h.params) |-> LET q == ImplDefParam(h.params[i])
+                                          IN IF q.t = "Param" THEN ParamV(q.n, kindOf(i), q.a[2], q.a[3]) ELSE q], ret)
 
 (***************************************************************************)
 (* Impl, runtime route                                                     *)
@@ -99,13 +111,6 @@ ImplRtParamType(h, p) ==
     IF p.ann # NoAnn
     THEN ImplTranslateVararg(p.kind, ImplRt(ImplAnnObject(h, p.ann), IsVar(p.kind)))     \* :515-520
     ELSE AnyV("unannotated")                                                             \* :574 (no self, no varname value)
-
-\* arg_spec.py:456 _make_sig_parameter + the make_everything_pos_only loop of from_signature (:437)
-ImplRtKind(h, i) ==
-    LET p == h.params[i]
-        dunderAtOrAfter == \E j \in i..Len(h.params) :
-                              h.params[j].kind = "POSITIONAL_OR_KEYWORD" /\ IsDunderName(h.params[j].name)
-    IN IF dunderAtOrAfter THEN "POSITIONAL_ONLY" ELSE p.kind
 
 ImplRtDefault(p) ==
     IF p.dflt = "none" \/ (BugRuntimeIgnoresKwDefaults /\ p.kind = "KEYWORD_ONLY") THEN NoDefault
@@ -156,8 +161,8 @@ DefaultsDiffer(h, s1, s2) == \E i \in 1..Len(h.params) : ~RefSameDefault(s1.a[i]
 
 \* Known deviation: the PEP 484 convention "a parameter named __x is positional-only" is applied to the
 \* runtime signature only (arg_spec.py:480); compute_parameters keeps POSITIONAL_OR_KEYWORD.
-Dev_DunderPositionalOnly(h) ==
-    \E i \in 1..Len(h.params) : h.params[i].kind = "POSITIONAL_OR_KEYWORD" /\ IsDunderName(h.params[i].name)
+DunderHeader(h) == \E i \in 1..Len(h.params) : h.params[i].kind = "POSITIONAL_OR_KEYWORD" /\ IsDunderName(h.params[i].name)
+Dev_DunderPositionalOnly(h) == ~FixedDunder /\ DunderHeader(h)
 \* Known deviation: a default written `...` is "unspecified" (Any[unannotated]) for the def route
 \* (functions.py:214, a stub convention applied to ordinary code) and the Ellipsis object for the runtime route
 Dev_EllipsisDefault(h) == \E i \in 1..Len(h.params) : h.params[i].dflt = "..."
@@ -173,7 +178,7 @@ Calls(h) == {[npos |-> n, kws |-> k, bad |-> b] :
 \* the parameters whose kind the runtime route changes: a call is affected iff it names one of them
 DunderAffected(h) == {h.params[i].name : i \in {j \in 1..Len(h.params) :
                         h.params[j].kind = "POSITIONAL_OR_KEYWORD" /\ ImplRtKind(h, j) = "POSITIONAL_ONLY"}}
-Dev_DunderCall(h, kws) == kws \cap DunderAffected(h) # {}
+Dev_DunderCall(h, kws) == ~FixedDunder /\ kws \cap DunderAffected(h) # {}
 \* ... and the parameters whose default differs matter to a call iff the call leaves one of them to its
 \* default and a type variable is solved from that default
 RECURSIVE HasNameIn(_, _)
@@ -225,14 +230,15 @@ HeaderViewsAgree ==
     stage = "done" => RefSameSigModulo(case, ImplSigDef(case), ImplSigRt(case),
                                        Dev_DunderPositionalOnly(case), Dev_EllipsisDefault(case))
 HeaderViewsAgreeStrict == stage = "done" => RefSameSig(case, ImplSigDef(case), ImplSigRt(case))
-\* both views report the names and default-presence CPython reports; kinds too, outside the deviation
+\* both views report the names and default-presence CPython reports; kinds too, except where the PEP 484
+\* convention for __names deliberately departs from it
 ViewsMatchInspect ==
     stage = "done" =>
         \A i \in 1..Len(case.params) :
             LET d == ImplSigDef(case).a[i] r == ImplSigRt(case).a[i] py == RefInspect(case)[i]
             IN /\ d.n = py[1] /\ r.n = py[1]
-               /\ d.a[1].n = py[2]
-               /\ (r.a[1].n = py[2] \/ Dev_DunderPositionalOnly(case))
+               /\ (d.a[1].n = py[2] \/ (FixedDunder /\ DunderHeader(case)))
+               /\ (r.a[1].n = py[2] \/ DunderHeader(case))
                /\ (d.a[2].t = "nodefault") = (py[3] = "nodefault")
                /\ (r.a[2].t = "nodefault") = (py[3] = "nodefault")
 =============================================================================
